@@ -3,10 +3,15 @@
 import json
 ALL=[json.loads(l)['id'] for l in open('/verif/properties.jsonl')]
 ENGINES={
+ "codemc":("harness/src/codemc.rs","explicit-state exploration of the abstract machine of every function body of every compiled chunk; determinism by re-compilation in and across processes; size ladders across every encoding limit; dynamic corollary in memory-limited worker processes"),
  "progmc":("harness/src/progmc.rs (+ kast.rs renderer, kref.rs reference interpreter, fam_*.rs families)","bounded-exhaustive enumeration of program families; each program runs on the real koto and on the reference interpreter kref; observations compared"),
  "lexmc":("harness/src/lexmc.rs","exhaustive prefix-tree exploration of all strings up to a length bound through the real lexer"),
 }
 CHECKS={
+ "C05":dict(engine="codemc",category="model_checking",
+   text="For every chunk the real compiler emits for (1) the generated programs of the six progmc profiles, (2) the repository's scripts and documentation examples, (3) their complete single-token delete/duplicate/swap neighbourhood and (4) size ladders that cross each encoding limit (locals, parameters, call arguments, literal sizes, nesting depth, forward and backward jump distances around 65535 bytes for every control construct), each under three compiler settings, every function body is explored exhaustively as a transition system over (ip, sequence-builder depth, string-builder depth, try stack) with all branch, loop-exit and exception edges; in every reachable state the instruction must decode, jump targets must be instruction boundaries inside the same body, register and constant operands must be in range and of the right kind, and builders/tries must balance (equal on all paths, empty at Return). Chunks are recompiled in the same and in a second process (byte-identical), size-ladder programs are run and must either be rejected at compile time or compute the arithmetically known result, and mutated programs are run in memory-limited workers (no internal faults).",
+   note="The exception edge assumes unwinding restores builder depths (checked dynamically by C04/C07). Register operands are required to be < NewFrame.register_count. Programs that could touch the host (io/os/import) are compiled and explored but not executed.",
+   technique="explicit-state exploration of emitted code (abstract machine per function), exhaustive over control-flow successors; bounded-exhaustive input families"),
  "C17":dict(engine="progmc",category="exploration",
    text="Complete enumeration of operator/protocol dispatch: 6 arithmetic operators x 8 left operand classes (object implementing, throwing koto.unimplemented, throwing something else, lacking the metakey; number, string, list, plain map) x 4 right operand classes, in binary form, repeated 300 times in one frame, and in compound form with/without @op= and @op; every subset of the 6 comparison metakeys x 6 operators x 3 other operands plus derived results for every @</@== outcome; every subset of size <= 2 (thorough 3) of 11 protocol metakeys x 15 operations; key lookup through own data / @meta / @base chains of depth 2 and metamaps shared through with_meta; and the same for a host-defined object (declared with the repository's derive macros, implemented-operation set given by a bitmask) on either side. Every metakey function prints its name and operands. Differential against the reference interpreter (whose host-object model is a map object with the equivalent metakeys), plus the internal-stack invariant (hook H1).",
    note="Trusted: kref's dispatch table (written from the guide's sections on operators and metakeys) and the renderer. Undocumented corners (<=/> derived without @==, tuple patterns against objects without @size/@index, map+map with metamaps) are skipped, counted in the evidence.",
